@@ -1,5 +1,6 @@
 """Typed, seeded generator of XPath 1.0 expressions (most are dynamically valid) and of invalid
 strings derived from valid ones."""
+import re
 import gen_xml
 
 AXES_FWD = ['child', 'descendant', 'descendant-or-self', 'following', 'following-sibling', 'attribute', 'self']
@@ -35,8 +36,12 @@ class Gen(object):
         return self.r.choice(['', '', '', ' ', '  ', '\n'])
 
     def var(self, typ):
-        c = [n for n, t in self.vars.items() if t == typ]
+        # a result tree fragment ('rtf') is usable wherever a string is
+        c = [n for n, t in self.vars.items() if t == typ or (typ == 'str' and t == 'rtf')]
         return '$' + self.r.choice(c) if c else None
+
+    def e_rtf(self, depth):
+        return self.var('rtf') or self.e_str(depth)
 
     def nametest(self, attr=False):
         r = self.r
@@ -184,7 +189,7 @@ class Gen(object):
             op = r.choice(['+', '-', '*', 'div', 'mod', '+', '-'])
             self.f('arith:' + op)
             a, b = self.e_num(depth + 1), self.e_num(depth + 1)
-            if op in ('div', 'mod') and a[-1] in '0123456789.)]' and r.random() < 0.2:
+            if op in ('div', 'mod') and (a[-1] in ')]' or re.match(r'^[0-9]*\.?[0-9]+$|^[0-9]+\.$', a)) and r.random() < 0.2:
                 # no white space is needed between a number (or a bracket) and an operator name
                 self.f('operator-name-without-space')
                 return '%s%s %s' % (a, op, b)
@@ -289,6 +294,12 @@ class Gen(object):
             op = r.choice(['=', '!=', '<', '<=', '>', '>='])
             ta = r.choice(['ns', 'ns', 'num', 'str', 'bool'])
             tb = r.choice(['ns', 'num', 'num', 'str', 'bool'])
+            if 'rtf' in self.vars.values() and r.random() < 0.25:
+                # a result tree fragment compares like a node-set with one node: against each of the other types, on either side
+                if r.random() < 0.5:
+                    ta = 'rtf'
+                else:
+                    tb = 'rtf'
             self.f('cmp:%s:%s:%s' % (op if op in ('=', '!=') else 'rel', ta, tb))
             a, b = self.expr(ta, depth + 1), self.expr(tb, depth + 1)
             if 'identity-compare' in self.avoid and a == b:
